@@ -108,22 +108,29 @@ def pid_fields(bonds, n_sssr, extra=()):
     try:
         paths = S._bfs(S._skin_graph(bonds))
         out['paths'] = show(paths)
-    except Exception:
-        return {'paths': 'raise', 'cands': 'raise', 'final': 'raise'}
+    except Exception as e:
+        return {'paths': 'raise', 'cands': 'raise', 'final': 'raise', 'exc': type(e).__name__}
     try:
         pid = S._make_pid(paths)
-    except Exception:
+    except Exception as e:
         out['cands'] = out['final'] = 'raise'
+        out['exc'] = type(e).__name__
         return out
     cands, rings, raised = [], [], False
-    gen = S._c_set(*pid)
+    try:
+        gen = S._c_set(*pid)
+    except Exception as e:
+        out['cands'] = out['final'] = 'raise'
+        out['exc'] = type(e).__name__
+        return out
     while True:
         try:
             c = next(gen)
         except StopIteration:
             break
-        except Exception:
+        except Exception as e:
             raised = True
+            out['exc'] = type(e).__name__
             break
         rings.append(c)
         cands.append(','.join(map(str, c)))
@@ -138,6 +145,7 @@ def pid_fields(bonds, n_sssr, extra=()):
             out[key] = 'ok ' + show(S._rings_filter(replay(), n))
         except S.ImplementationError:
             out[key] = 'notreached'
-        except Exception:
+        except Exception as e:
             out[key] = 'raise'
+            out.setdefault('exc', type(e).__name__)
     return out
